@@ -1,3 +1,29 @@
-From Verif Require Import Base.
-Theorem placeholder : True. Proof. exact I. Qed.
-Print Assumptions placeholder.
+(* C01 — each call gets its own handler's result under any concurrency or reordering.
+   Model: Sys.v (message level: any number of calls in flight, network = bag of frames, any
+   delivery order and delay).  The per-endpoint facts Sys.v builds on (fresh id per call, waiter
+   registered before the request is written, response handed only to the waiter of its id, one
+   handler goroutine per request) are the steps of Link.v, tied to registry.go by the window-level
+   correspondence (C03..C05, C16 checks). *)
+From Verif Require Import Base Sys.
+
+Theorem each_call_own_result :
+  forall (h : N -> N -> N) s id v,
+    sreachable h s -> In (id, v) (sreturned s) ->
+    exists c, nth_error (scalls s) id = Some c /\ v = h (sc_fn c) (sc_arg c) /\
+              In (id, sc_fn c, sc_arg c) (sinvoked s) /\
+              (forall fn arg, In (id, fn, arg) (sinvoked s) -> fn = sc_fn c /\ arg = sc_arg c) /\
+              NoDup (map rid (sinvoked s)).
+Proof. exact each_call_own_result_lemma. Qed.
+Print Assumptions each_call_own_result.
+
+(* Non-vacuity: three calls in flight, requests delivered in the order 2,0,1, responses 1,0,2. *)
+Example reordered_run :
+  exists s, sreachable (fun fn arg => (fn * 100 + arg)%N) s /\
+            sreturned s = [(1, 307%N); (0, 204%N); (2, 105%N)].
+Proof.
+  eexists. split.
+  - exists [ACall 2 4; ACall 3 7; ACall 1 5; ADeliverReq 0; ADeliverReq 1; ADeliverReq 0;
+            ADeliverRes 2; ADeliverRes 1; ADeliverRes 0]%N.
+    vm_compute. reflexivity.
+  - reflexivity.
+Qed.
